@@ -66,6 +66,8 @@ static volatile int foreign_seen;
 static void app_handler(int sig, siginfo_t* si, void* uc)
 {
   if (foreign_jmp) { foreign_seen++; siglongjmp(*foreign_jmp, 1); }
+  static const char m[] = "h_conc: the APPLICATION's SIGBUS handler received a fault raised inside a libyara scan (the library did not recognise its own fault)\n";
+  if (write(2, m, sizeof m - 1) < 0) _exit(78);
   _exit(77);
 }
 // provoke a SIGBUS outside any scan: read a private mapping of a file that was truncated; returns 1 when the application handler recovered it
